@@ -13,7 +13,7 @@ AllDevs == {"KindPriorityNotRecency", "V9OptionsDataFirstRecordOnly", "IpfixGree
 DevCandidates == << {}, AllDevs >> \o SetToSeq({AllDevs \ {d} : d \in AllDevs}) \o SetToSeq({{d} : d \in AllDevs})
 
 \* property ids a named deviation is filed under
-DevProps(d) == CASE d = "KindPriorityNotRecency"        -> {"C06"}
+DevProps(d) == CASE d = "KindPriorityNotRecency"        -> {"C04", "C05", "C06"}     \* data decoded under a superseded definition
                  [] d = "V9OptionsDataFirstRecordOnly"  -> {"C04"}
                  [] d = "IpfixGreedyTemplate"           -> {"C05", "C06"}
                  [] d = "IpfixOptionsTemplateFirstOnly" -> {"C05", "C06"}
@@ -209,6 +209,11 @@ RecordFlowFindings(proto, fs, rec, fl) ==
              cands == {rec[j] : j \in {q \in 1..Len(fs) : fs[q].t \in ToSet(a[2]) /\ ~fs[q].ent}}
              nat == {v \in cands : Len(v) \in a[3]} IN
          IF cands = {} THEN (IF fl[a[1]] # Absent THEN {<<"C13", "common", a[1], "present-but-absent:" \o proto>>} ELSE {})
+         \* an 8-byte time field: the 32-bit common value can only be its low half when the high half is zero
+         \* (absence is tolerated: the value may not fit), never some other number
+         ELSE IF a[1] \in {"first", "last"} /\ \A v \in cands : Len(v) = 8 THEN
+           (IF fl[a[1]] = Absent \/ \E v \in cands : AllZero(SubSeq(v, 1, 4)) /\ fl[a[1]] = SubSeq(v, 5, 8) THEN {}
+            ELSE {<<"C13", "common", a[1], "differs:" \o proto>>})
          ELSE IF nat # cands THEN {}      \* some occurrence has a reduced/odd width: no verdict on this aspect
          ELSE IF fl[a[1]] = Absent THEN {<<"C13", "common", a[1], "absent-but-present:" \o proto>>}
          ELSE IF fl[a[1]] \notin nat THEN
